@@ -263,6 +263,9 @@ def documents(ctx):
         if b.startswith("github") or b in ("vega", "rust-collisions"):
             if not thorough or b != "github": continue
         if thorough or b in small: docs.append(("fixture:" + b, doc))
+    import corpus
+    for cid, cdoc, _ in corpus.documents():
+        if cid.startswith(("hand:", "file:")): docs.append(("corpus:" + cid, cdoc))
     n = 400 if thorough else 30
     for k in range(n):
         fs = ["default", "defaults", "allof", "recursive", "formats"][k % 5]
